@@ -229,21 +229,28 @@ func discharge(script string, dir string, name string, timeoutS int, seed int, s
 	ctx, cancel := context.WithCancel(context.Background())
 	defer cancel()
 	all := append([]solverSpec{ematch}, solvers...)
-	ch := make(chan solveResult, len(all)+1)
+	ch := make(chan solveResult, len(all)+2)
 	var wg sync.WaitGroup
 	if rx, ok := recaxScript(script); ok {
-		wg.Add(1)
-		go func() {
-			defer wg.Done()
-			f := strings.TrimSuffix(file, ".smt2") + ".recax.smt2"
-			os.WriteFile(f, []byte(rx), 0o644)
-			r := runSolver(ctx, ematch, f, timeoutS, seed)
-			r.solver += "(recax)"
-			if r.status != "unsat" {
-				r.status = "timeout" // only a refutation counts from this variant
-			}
-			ch <- r
-		}()
+		f := strings.TrimSuffix(file, ".smt2") + ".recax.smt2"
+		os.WriteFile(f, []byte(rx), 0o644)
+		// two runs with different random seeds: E-matching on these scripts is sensitive to the
+		// seed (the same goal can take 1 s or more than a minute)
+		for k, sd := range []int{seed, seed + 7919} {
+			wg.Add(1)
+			go func(k, sd int) {
+				defer wg.Done()
+				r := runSolver(ctx, ematch, f, timeoutS, sd)
+				r.solver += "(recax)"
+				if k > 0 {
+					r.solver += "(seed2)"
+				}
+				if r.status != "unsat" {
+					r.status = "timeout" // only a refutation counts from this variant
+				}
+				ch <- r
+			}(k, sd)
+		}
 	}
 	for _, s := range all {
 		wg.Add(1)
